@@ -289,7 +289,7 @@ type c16Line struct {
 	Vid   string          `json:"vid,omitempty"`
 	Vr    json.RawMessage `json:"vr,omitempty"`
 	Ty    string          `json:"ty,omitempty"`
-	Cache string          `json:"cache,omitempty"` // SchemaCache arrangement: none | warm | xfirst
+	Cache string          `json:"cache,omitempty"` // SchemaCache arrangement: none | warm | xfirst | pfirst (output side)
 	Cls   []string        `json:"cls,omitempty"`
 	Args  json.RawMessage `json:"args,omitempty"`
 	// output cases
@@ -352,7 +352,10 @@ func c16AddOut[Out any](s *mcp.Server, st *c16State, name string, schema json.Ra
 	})
 }
 
-func c16AddReflected(s *mcp.Server, st *c16State) {
+// ptrFirst: the tools whose Out is a pointer type (*c16OutS, *int) are registered before the tools whose Out is
+// their element type (c16OutS, int), so that with a SchemaCache the pointer registration is the one that fills the
+// by-type entry; otherwise the element-type tool comes first and the pointer tool finds the entry.
+func c16AddReflected(s *mcp.Server, st *c16State, ptrFirst bool) {
 	mcp.AddTool(s, &mcp.Tool{Name: "rin.InA"}, func(ctx context.Context, req *mcp.CallToolRequest, in c16InA) (*mcp.CallToolResult, any, error) {
 		st.calls++
 		st.seen = c16ViewA(in)
@@ -368,10 +371,19 @@ func c16AddReflected(s *mcp.Server, st *c16State) {
 		st.seen = c16ViewC(in)
 		return nil, nil, nil
 	})
+	addPtr := func() {
+		c16AddOut(s, st, "rout.ptr", nil, func() (v *c16OutS) { st.typed(&v); return })
+		c16AddOut(s, st, "rout.pint", nil, func() (v *int) { st.typed(&v); return })
+	}
+	if ptrFirst {
+		addPtr()
+	}
 	c16AddOut(s, st, "rout.struct", nil, func() (v c16OutS) { st.typed(&v); return })
-	c16AddOut(s, st, "rout.ptr", nil, func() (v *c16OutS) { st.typed(&v); return })
 	c16AddOut(s, st, "rout.strs", nil, func() (v []string) { st.typed(&v); return })
 	c16AddOut(s, st, "rout.rint", nil, func() (v int) { st.typed(&v); return })
+	if !ptrFirst {
+		addPtr()
+	}
 	c16AddOut(s, st, "rout.rstr", nil, func() (v string) { st.typed(&v); return })
 	c16AddOut(s, st, "rout.rbool", nil, func() (v bool) { st.typed(&v); return })
 }
@@ -484,22 +496,27 @@ func TestVerif_C16(t *testing.T) {
 		t.Fatal("c16: schema lines for sin/InC and out/outsx missing")
 	}
 	// no SchemaCache
-	c16AddReflected(plainSrv, st)
+	c16AddReflected(plainSrv, st, false)
 	c16AddExplicitStruct(plainSrv, st, schemaInC, schemaOutSX)
 	// "warm": the cache has been filled with the inferred schemas by an earlier Server; inferred tools first,
 	// then the explicit-schema tools of the same Go types
 	warm := mcp.NewSchemaCache()
-	c16AddReflected(mcp.NewServer(impl, &mcp.ServerOptions{SchemaCache: warm}), st)
+	c16AddReflected(mcp.NewServer(impl, &mcp.ServerOptions{SchemaCache: warm}), st, false)
 	warmSrv := mcp.NewServer(impl, &mcp.ServerOptions{SchemaCache: warm})
-	c16AddReflected(warmSrv, st)
+	c16AddReflected(warmSrv, st, false)
 	c16AddExplicitStruct(warmSrv, st, schemaInC, schemaOutSX)
 	// "xfirst": fresh cache, explicit-schema tools first, then the inferred tools of the same Go types
 	xfirstSrv := mcp.NewServer(impl, &mcp.ServerOptions{SchemaCache: mcp.NewSchemaCache()})
 	c16AddExplicitStruct(xfirstSrv, st, schemaInC, schemaOutSX)
-	c16AddReflected(xfirstSrv, st)
+	c16AddReflected(xfirstSrv, st, false)
+	// "pfirst": fresh cache, the pointer-typed Out tools first (they fill the by-type entries of their element
+	// types), then the element-typed ones (cache hits), then the explicit-schema tools of the same Go types
+	pfirstSrv := mcp.NewServer(impl, &mcp.ServerOptions{SchemaCache: mcp.NewSchemaCache()})
+	c16AddReflected(pfirstSrv, st, true)
+	c16AddExplicitStruct(pfirstSrv, st, schemaInC, schemaOutSX)
 
 	sessions := map[string]*mcp.ClientSession{"none": c16Connect(t, ctx, plainSrv), "warm": c16Connect(t, ctx, warmSrv),
-		"xfirst": c16Connect(t, ctx, xfirstSrv)}
+		"xfirst": c16Connect(t, ctx, xfirstSrv), "pfirst": c16Connect(t, ctx, pfirstSrv)}
 
 	// advertised schemas (for the binding check of the reflected family)
 	adv := map[string]any{}
